@@ -821,6 +821,11 @@ def _scalar_value_tomof(
                 "for conversion to a MOF string",
                 type, builtin_type(value))
     val = str(value)
+    if isinstance(value, CIMFloat):
+        # DSP0004 realValue requires a fraction part ("1e+20" is not MOF)
+        mant, sep, exp = val.partition('e')
+        if '.' not in mant and mant.lstrip('+-').isdigit():
+            val = mant + '.0' + sep + exp
     return mofval(val, indent, maxline, line_pos, end_space)
 
 
